@@ -1,7 +1,8 @@
 import Ebv.Driver.Io
 import Ebv.Model.SdoSystem
 import Ebv.Model.SdoConfig
-open Ebv Ebv.Io Ebv.Sdo Ebv.SdoServer Ebv.SdoSystem Lean
+import Ebv.Model.SdoHistory
+open Ebv Ebv.Io Ebv.Sdo Ebv.SdoServer Ebv.SdoSystem Ebv.SdoHistory Lean
 
 def showEv : Ev → String
   | .st0 f => if f then "s8" else "s0"
@@ -39,12 +40,44 @@ def getKind (j : Json) : Option Kind := do
   | "write" => pure (.write (← fBytes j "value"))
   | _ => none
 
-/-- rounds until the mails no longer change (bounded): `mailsAfter c n` for the first `n` that is a fixpoint -/
-def settle (c : Setup) : Nat → List Mail → List Mail
-  | 0, mails => mails
-  | fuel + 1, mails =>
-    let next := round c mails
-    if next == mails then mails else settle c fuel next
+def getSched (j : Json) : Option (List Slot) := do
+  (← fArr j "sched").mapM fun s => do
+    pure (⟨← fBool s "full", ← (← fArr s "pre").mapM jBytes, ← fNat s "delay"⟩ : Slot)
+
+def getObjs (os : List Json) : Option (List Obj) :=
+  os.mapM fun o => do
+    match ← jArr o with
+    | [i, s, ca, cap, v] => pure (⟨← jNat i, ← jNat s, ← jBool ca, ← jNat cap, ← jBytes v⟩ : Obj)
+    | _ => none
+
+def getSub (j : Json) : Option Nat :=
+  match field j "sub" with
+  | some (.num n) => some n.mantissa.toNat
+  | _ => none
+
+/-- one operation of a history -/
+def getOp (j : Json) : Option Op := do
+  let t ← fNat j "t"
+  match ← fStr j "op" with
+  | "config" => pure (.config t (← fBytes j "sm"))
+  | "set" => pure (.set t (← fNat j "index") (← fNat j "sub") (← fBool j "ca") (← fBytes j "value"))
+  | "xfer" =>
+    let cut ← match field j "cut" with
+      | some (.arr a) => match a.toList with
+        | [a, b] => do pure (some (⟨← jNat a, ← jNat b⟩ : Cut))
+        | _ => none
+      | _ => pure none
+    pure (.xfer t (← fNat j "index") (getSub j) (← getKind j) (← getSched j) cut)
+  | _ => none
+
+def showOutH : Out → String
+  | .cfg none => "cfg:none"
+  | .cfg (some m) => s!"cfg:{m.outOff}:{m.outSz}:{m.inOff}:{m.inSz}"
+  | .set => "set"
+  | .nothing => "nothing"
+  | .xfer tr o obj =>
+    joinSp (tr.map showEv) ++ " | " ++ (match o with | none => "cancelled" | some r => showOut r) ++ " | obj:" ++
+      (match obj with | none => "-" | some v => hexOfBytes v)
 
 def step (j : Json) : Option String := do
   match ← fStr j "mode" with
@@ -68,14 +101,19 @@ def step (j : Json) : Option String := do
   | "sys" =>
     let p ← getParams j
     let k ← getKind j
-    let sched ← (← fArr j "sched").mapM fun s => do
-      pure (⟨← fBool s "full", ← (← fArr s "pre").mapM jBytes, ← fNat s "delay"⟩ : Slot)
+    let sched ← getSched j
     let stored ← match k with
       | .read => fBytes j "value"
       | .write _ => fBytes j "init"
-    let c : Setup := ⟨p, k, ← fNat j "cnt", sched, [⟨p.index, subOr1 p, p.sub.isNone, ← fNat j "cap", stored⟩]⟩
-    let r := resultOf c (settle c 4096 (mailsAfter c 0))
+    let c : Setup := ⟨p, k, ← fNat j "cnt", sched, [⟨p.index, subOr1 p, p.sub.isNone, ← fNat j "cap", stored⟩], 1, .idle⟩
+    let r := final c
     pure (showRun (r.trace, r.outcome) ++ " | obj:" ++ hexOfBytes ((target c r.objs).getD []))
+  | "hist" =>
+    let cnts ← (← fArr j "cnt").mapM jNat
+    let objs ← (← fArr j "objs").mapM fun os => do getObjs (← jArr os)
+    let w : List SdoHistory.Term := (cnts.zip objs).map fun (c, os) => ⟨none, c, os, 1, .idle⟩
+    let ops ← (← fArr j "steps").mapM getOp
+    pure (" || ".intercalate ((runOps w ops).2.map showOutH))
   | _ => none
 
 def main : IO Unit := driverMain step
